@@ -49,4 +49,16 @@ MAt(m, i, j) == m[3 * (i - 1) + j]
 MMul(a, b) == [n \in 1..9 |-> LET i == ((n - 1) \div 3) + 1  j == ((n - 1) % 3) + 1 IN
                  MAt(a, i, 1) * MAt(b, 1, j) + MAt(a, i, 2) * MAt(b, 2, j) + MAt(a, i, 3) * MAt(b, 3, j)]
 MVec(m, v) == [i \in 1..3 |-> MAt(m, i, 1) * v[1] + MAt(m, i, 2) * v[2] + MAt(m, i, 3) * v[3]]
+
+\* ---- the rest of the exported surface (Misc) ----------------------------------
+CheckZoomOk(b, z) == b = (0 <= z /\ z <= 35)
+\* point helpers on integer points: extreme points along a direction, unique append, closeness
+Dot3(p, d) == p[1] * d[1] + p[2] * d[2] + p[3] * d[3]
+MaxPointOk(m, isErr, pts, d) == IF pts = <<>> THEN isErr
+   ELSE ~isErr /\ m \in Range(pts) /\ \A q \in Range(pts) : Dot3(q, d) <= Dot3(m, d)
+MinPointOk(m, isErr, pts, d) == IF pts = <<>> THEN isErr
+   ELSE ~isErr /\ m \in Range(pts) /\ \A q \in Range(pts) : Dot3(m, d) <= Dot3(q, d)
+Close3(p, q, eps) == Abs(p[1] - q[1]) <= eps /\ Abs(p[2] - q[2]) <= eps /\ Abs(p[3] - q[3]) <= eps
+UniqueAppendOk(appended, pts, a, eps) == appended = (IF \E q \in Range(pts) : Close3(q, a, eps) THEN 0 ELSE 1)
+Dist2(p, q) == (p[1] - q[1]) * (p[1] - q[1]) + (p[2] - q[2]) * (p[2] - q[2]) + (p[3] - q[3]) * (p[3] - q[3])
 =============================================================================
